@@ -245,6 +245,8 @@ struct Scenario {
     /// seconds between rounds (the replication throttles are aged by this much) and number of rounds
     spacing: u64,
     rounds: usize,
+    /// responsible range in force on node A (set the way the driver's periodic estimate sets it), if any
+    a_range: Option<ant_evm::U256>,
 }
 
 fn scenarios() -> Vec<Scenario> {
@@ -255,24 +257,41 @@ fn scenarios() -> Vec<Scenario> {
     let tk = rec::tx_key(&t[0]);
     let p1 = rec::pad(5, 1, b"pad one", 5);
     let p3 = rec::pad(5, 3, b"pad three", 5);
+    // a chunk that lies inside A's responsible range but is farther from B than that range is wide (ranges are per node:
+    // what A is responsible for says nothing about what its neighbour will take)
+    let (a_id, b_id) = (NetworkAddress::from_peer(rigs::fixtures::peer_id(1)), NetworkAddress::from_peer(rigs::fixtures::peer_id(2)));
+    let gap_chunk = (0..=255u8)
+        .map(|i| rec::chunk(&[b'c', b'0', b'9', b'g', i]))
+        .find(|c| {
+            let ca = NetworkAddress::from_chunk_address(*c.address());
+            a_id.distance(&ca) < b_id.distance(&ca)
+        })
+        .expect("a chunk nearer to A than to B");
+    let gap_addr = NetworkAddress::from_chunk_address(*gap_chunk.address());
+    let dist = |x: &NetworkAddress| ant_evm::U256::from_be_bytes(rigs::reference::xor_distance(&x.as_bytes(), &gap_addr.as_bytes()));
+    let covers_record_not_target = dist(&a_id) + ant_evm::U256::from(1u8);
+    assert!(covers_record_not_target < dist(&b_id));
     vec![
-        Scenario { name: "chunk on A only", nodes: 2, seeds: vec![(0, rec::chunk_record(&chunk))], key: rec::chunk_key(&chunk), kind: "chunk", first_write_pending: false, late: vec![], spacing: 120, rounds: 3 },
-        Scenario { name: "chunk on A only, 3 nodes", nodes: 3, seeds: vec![(0, rec::chunk_record(&chunk))], key: rec::chunk_key(&chunk), kind: "chunk", first_write_pending: false, late: vec![], spacing: 120, rounds: 3 },
-        Scenario { name: "register ops{0} on A, ops{1} on B", nodes: 2, seeds: vec![(0, rec::reg_record(&fx.with_ops(&[0]))), (1, rec::reg_record(&fx.with_ops(&[1])))], key: rec::reg_key(&fx.base), kind: "register", first_write_pending: false, late: vec![], spacing: 120, rounds: 3 },
-        Scenario { name: "register ops{0,1} on A, ops{1} on B", nodes: 2, seeds: vec![(0, rec::reg_record(&fx.with_ops(&[0, 1]))), (1, rec::reg_record(&fx.with_ops(&[1])))], key: rec::reg_key(&fx.base), kind: "register", first_write_pending: false, late: vec![], spacing: 120, rounds: 3 },
-        Scenario { name: "transactions [t1] on A, [t2] on B", nodes: 2, seeds: vec![(0, rec::txs_record(tk.clone(), &[t[0].clone()])), (1, rec::txs_record(tk.clone(), &[t[1].clone()]))], key: tk.clone(), kind: "transaction", first_write_pending: false, late: vec![], spacing: 120, rounds: 3 },
-        Scenario { name: "transactions [t1] on A, [t2] on B, [t3] on C", nodes: 3, seeds: vec![(0, rec::txs_record(tk.clone(), &[t[0].clone()])), (1, rec::txs_record(tk.clone(), &[t[1].clone()])), (2, rec::txs_record(tk.clone(), &[t[2].clone()]))], key: tk.clone(), kind: "transaction", first_write_pending: false, late: vec![], spacing: 120, rounds: 3 },
-        Scenario { name: "scratchpad c=1 on A, c=3 on B", nodes: 2, seeds: vec![(0, rec::pad_record(&p1)), (1, rec::pad_record(&p3))], key: rec::pad_key(&p1), kind: "scratchpad", first_write_pending: false, late: vec![], spacing: 120, rounds: 3 },
-        Scenario { name: "scratchpad c=3 on A only", nodes: 2, seeds: vec![(0, rec::pad_record(&p3))], key: rec::pad_key(&p3), kind: "scratchpad", first_write_pending: false, late: vec![], spacing: 120, rounds: 3 },
+        Scenario { name: "chunk on A only; A's responsible range covers the chunk but is narrower than the chunk's distance from B", nodes: 2, seeds: vec![(0, rec::chunk_record(&gap_chunk))], key: rec::chunk_key(&gap_chunk), kind: "chunk", first_write_pending: false, late: vec![], spacing: 120, rounds: 3, a_range: Some(covers_record_not_target) },
+        Scenario { name: "chunk on A only; A's responsible range is the narrowest possible", nodes: 2, seeds: vec![(0, rec::chunk_record(&chunk))], key: rec::chunk_key(&chunk), kind: "chunk", first_write_pending: false, late: vec![], spacing: 120, rounds: 3, a_range: Some(ant_evm::U256::from(1u8)) },
+        Scenario { name: "register ops{0} on A, ops{1} on B; A's responsible range is the narrowest possible", nodes: 2, seeds: vec![(0, rec::reg_record(&fx.with_ops(&[0]))), (1, rec::reg_record(&fx.with_ops(&[1])))], key: rec::reg_key(&fx.base), kind: "register", first_write_pending: false, late: vec![], spacing: 120, rounds: 3, a_range: Some(ant_evm::U256::from(1u8)) },
+        Scenario { name: "chunk on A only", nodes: 2, seeds: vec![(0, rec::chunk_record(&chunk))], key: rec::chunk_key(&chunk), kind: "chunk", first_write_pending: false, late: vec![], spacing: 120, rounds: 3, a_range: None },
+        Scenario { name: "chunk on A only, 3 nodes", nodes: 3, seeds: vec![(0, rec::chunk_record(&chunk))], key: rec::chunk_key(&chunk), kind: "chunk", first_write_pending: false, late: vec![], spacing: 120, rounds: 3, a_range: None },
+        Scenario { name: "register ops{0} on A, ops{1} on B", nodes: 2, seeds: vec![(0, rec::reg_record(&fx.with_ops(&[0]))), (1, rec::reg_record(&fx.with_ops(&[1])))], key: rec::reg_key(&fx.base), kind: "register", first_write_pending: false, late: vec![], spacing: 120, rounds: 3, a_range: None },
+        Scenario { name: "register ops{0,1} on A, ops{1} on B", nodes: 2, seeds: vec![(0, rec::reg_record(&fx.with_ops(&[0, 1]))), (1, rec::reg_record(&fx.with_ops(&[1])))], key: rec::reg_key(&fx.base), kind: "register", first_write_pending: false, late: vec![], spacing: 120, rounds: 3, a_range: None },
+        Scenario { name: "transactions [t1] on A, [t2] on B", nodes: 2, seeds: vec![(0, rec::txs_record(tk.clone(), &[t[0].clone()])), (1, rec::txs_record(tk.clone(), &[t[1].clone()]))], key: tk.clone(), kind: "transaction", first_write_pending: false, late: vec![], spacing: 120, rounds: 3, a_range: None },
+        Scenario { name: "transactions [t1] on A, [t2] on B, [t3] on C", nodes: 3, seeds: vec![(0, rec::txs_record(tk.clone(), &[t[0].clone()])), (1, rec::txs_record(tk.clone(), &[t[1].clone()])), (2, rec::txs_record(tk.clone(), &[t[2].clone()]))], key: tk.clone(), kind: "transaction", first_write_pending: false, late: vec![], spacing: 120, rounds: 3, a_range: None },
+        Scenario { name: "scratchpad c=1 on A, c=3 on B", nodes: 2, seeds: vec![(0, rec::pad_record(&p1)), (1, rec::pad_record(&p3))], key: rec::pad_key(&p1), kind: "scratchpad", first_write_pending: false, late: vec![], spacing: 120, rounds: 3, a_range: None },
+        Scenario { name: "scratchpad c=3 on A only", nodes: 2, seeds: vec![(0, rec::pad_record(&p3))], key: rec::pad_key(&p3), kind: "scratchpad", first_write_pending: false, late: vec![], spacing: 120, rounds: 3, a_range: None },
         // A has accepted its copy but the disk write is still pending when B's advertisement arrives
-        Scenario { name: "transactions [t1] on A (write pending), [t2] on B", nodes: 2, seeds: vec![(0, rec::txs_record(tk.clone(), &[t[0].clone()])), (1, rec::txs_record(tk.clone(), &[t[1].clone()]))], key: tk.clone(), kind: "transaction", first_write_pending: true, late: vec![], spacing: 120, rounds: 3 },
-        Scenario { name: "register ops{0} on A (write pending), ops{1} on B", nodes: 2, seeds: vec![(0, rec::reg_record(&fx.with_ops(&[0]))), (1, rec::reg_record(&fx.with_ops(&[1])))], key: rec::reg_key(&fx.base), kind: "register", first_write_pending: true, late: vec![], spacing: 120, rounds: 3 },
-        Scenario { name: "chunk on A only (write pending)", nodes: 2, seeds: vec![(0, rec::chunk_record(&chunk))], key: rec::chunk_key(&chunk), kind: "chunk", first_write_pending: true, late: vec![], spacing: 120, rounds: 3 },
+        Scenario { name: "transactions [t1] on A (write pending), [t2] on B", nodes: 2, seeds: vec![(0, rec::txs_record(tk.clone(), &[t[0].clone()])), (1, rec::txs_record(tk.clone(), &[t[1].clone()]))], key: tk.clone(), kind: "transaction", first_write_pending: true, late: vec![], spacing: 120, rounds: 3, a_range: None },
+        Scenario { name: "register ops{0} on A (write pending), ops{1} on B", nodes: 2, seeds: vec![(0, rec::reg_record(&fx.with_ops(&[0]))), (1, rec::reg_record(&fx.with_ops(&[1])))], key: rec::reg_key(&fx.base), kind: "register", first_write_pending: true, late: vec![], spacing: 120, rounds: 3, a_range: None },
+        Scenario { name: "chunk on A only (write pending)", nodes: 2, seeds: vec![(0, rec::chunk_record(&chunk))], key: rec::chunk_key(&chunk), kind: "chunk", first_write_pending: true, late: vec![], spacing: 120, rounds: 3, a_range: None },
         // records accepted after the first round, with rounds 31 s apart (inside the 45 s per-target throttle, outside the 30 s
         // per-node one — the rhythm of a node whose routing table keeps changing) and 46 s apart
-        Scenario { name: "chunk on A, a second chunk on A after round 1 (rounds 31 s apart)", nodes: 2, seeds: vec![(0, rec::chunk_record(&chunk))], key: rec::chunk_key(&chunk2), kind: "chunk", first_write_pending: false, late: vec![(0, rec::chunk_record(&chunk2))], spacing: 31, rounds: 6 },
-        Scenario { name: "chunk on A, a second chunk on A after round 1 (rounds 46 s apart)", nodes: 2, seeds: vec![(0, rec::chunk_record(&chunk))], key: rec::chunk_key(&chunk2), kind: "chunk", first_write_pending: false, late: vec![(0, rec::chunk_record(&chunk2))], spacing: 46, rounds: 4 },
-        Scenario { name: "register ops{0} on A and B, ops{0,1} accepted by A after round 1 (rounds 31 s apart)", nodes: 2, seeds: vec![(0, rec::reg_record(&fx.with_ops(&[0]))), (1, rec::reg_record(&fx.with_ops(&[0])))], key: rec::reg_key(&fx.base), kind: "register", first_write_pending: false, late: vec![(0, rec::reg_record(&fx.with_ops(&[0, 1])))], spacing: 31, rounds: 6 },
+        Scenario { name: "chunk on A, a second chunk on A after round 1 (rounds 31 s apart)", nodes: 2, seeds: vec![(0, rec::chunk_record(&chunk))], key: rec::chunk_key(&chunk2), kind: "chunk", first_write_pending: false, late: vec![(0, rec::chunk_record(&chunk2))], spacing: 31, rounds: 6, a_range: None },
+        Scenario { name: "chunk on A, a second chunk on A after round 1 (rounds 46 s apart)", nodes: 2, seeds: vec![(0, rec::chunk_record(&chunk))], key: rec::chunk_key(&chunk2), kind: "chunk", first_write_pending: false, late: vec![(0, rec::chunk_record(&chunk2))], spacing: 46, rounds: 4, a_range: None },
+        Scenario { name: "register ops{0} on A and B, ops{0,1} accepted by A after round 1 (rounds 31 s apart)", nodes: 2, seeds: vec![(0, rec::reg_record(&fx.with_ops(&[0]))), (1, rec::reg_record(&fx.with_ops(&[0])))], key: rec::reg_key(&fx.base), kind: "register", first_write_pending: false, late: vec![(0, rec::reg_record(&fx.with_ops(&[0, 1])))], spacing: 31, rounds: 6, a_range: None },
     ]
 }
 
@@ -345,6 +364,9 @@ fn run_scenario(run: &Run, sc: &Scenario, bound: usize, rounds: usize) {
                 } else {
                     cl.seed(*n, r.clone());
                 }
+            }
+            if let Some(r) = sc.a_range {
+                cl.nodes[0].d.driver.verif_set_responsible_range(r);
             }
             // nodes that hold the record under sc.key by an accepted upload (they must advertise it)
             let seeded: Vec<usize> = sc.seeds.iter().chain(sc.late.iter()).filter(|(_, r)| r.key == sc.key).map(|(n, _)| *n).collect();
@@ -492,7 +514,7 @@ fn full_node_divergence(run: &Run, bound: usize) {
         ("full node A (capacity 2) whose farthest record is a transaction set that B holds with another entry", "transaction", tk.clone(), rec::txs_record(tk.clone(), &[t[0].clone()]), rec::txs_record(tk.clone(), &[t[1].clone()])),
     ];
     for (name, kind, key, on_a, on_b) in cases {
-        let sc = Scenario { name, nodes: 2, seeds: vec![(0, on_a.clone()), (1, on_b.clone())], key: key.clone(), kind, first_write_pending: false, late: vec![], spacing: 120, rounds: 3 };
+        let sc = Scenario { name, nodes: 2, seeds: vec![(0, on_a.clone()), (1, on_b.clone())], key: key.clone(), kind, first_write_pending: false, late: vec![], spacing: 120, rounds: 3, a_range: None };
         let want = expected_converged(&sc);
         explore(
             run,
@@ -547,12 +569,12 @@ pub fn main(tier: Option<&str>) {
     run.rule(
         "2-3 real nodes (SwarmDriver + Node) wired in-process, mutual routing-table neighbours; seeds through the real replication-store \
          path: a chunk on A only, divergent registers (disjoint and nested op sets), divergent transaction sets (2 and 3 nodes), scratchpads \
-         with counters 1 and 3, a scratchpad on A only, the same with A's disk write held back during round 1, records accepted by A after the first round, and a full node A (capacity 2, fetcher told so by a refused third record) whose farthest record is a register / transaction set that B holds in another version; then 3 rounds of \
+         with counters 1 and 3, a scratchpad on A only, the same with A's disk write held back during round 1, records accepted by A after the first round, and a full node A (capacity 2, fetcher told so by a refused third record) whose farthest record is a register / transaction set that B holds in another version, and three scenarios with a responsible range set on A (covering the record but narrower than its distance from B; the narrowest possible); then 3 rounds of \
          interval replication on every node 120 s apart (6 rounds 31 s apart / 4 rounds 46 s apart for the late-record scenarios); every \
          delivery order of the in-flight requests/responses with <=1(2) deviations from FIFO. Plus advertisements from a stranger and from self, and — on a node whose routing table holds 45 peers — one-key (record next to the sender) and two-key lists from every peer outside / among the K closest.",
     );
     run.assume("the harness is the transport: it delivers a Replicate to the receiver's real handler with the holder claimed in the message (the real handler also only sees the claimed holder)");
-    run.assume("no responsible range is set (small networks): every neighbour is a replication target and every key is in range");
+    run.assume("no responsible range is set (small networks) except in the three scenarios that set one on A; with fewer than five peers in range the code falls back to the closest peers, so B stays A's replication target");
     let bound = run.pick(1, 2);
     for sc in scenarios() {
         run_scenario(&run, &sc, bound, sc.rounds);
